@@ -1199,6 +1199,63 @@ def generate(rng, tier):
         for _ in range(3 if tier == 'quick' else 30):
             calls = _history(rng, TG, name)
             yield _mk([name], calls, _tag_calls(TG, [name], calls, ['model:rng']))
+    # (6) a class found by reflection that the table does not know: try it with no arguments on simple votes
+    for qn in untabled_classes():
+        yield _mk(['Plurality'], [dict(c_eval_simple_sel(rng), t=0)], ['untabled_class:' + qn])
+    if tier == 'thorough':
+        yield from _exhaustive(TG)
+
+
+def _exhaustive(TG):
+    """small-scope exhaustive histories for the modelled machines (thorough tier)"""
+    ap = [D([(S(['c0', 'c1']), 3), (S(['c0']), 2)]),
+          D([(S(['c0', 'c1']), 2), (S(['c2']), 2), (S(['c1', 'c2']), 1)]),
+          D([(S(['c0', 'c1', 'c2']), 1), (S(['c3']), 1)])]
+    pav_calls = [call('evaluate', v, n) for v in ap for n in (1, 2, 3)]
+    for k in (1, 2, 3):
+        for h in itertools.product(pav_calls, repeat=k):
+            calls = [dict(json.loads(json.dumps(c)), t=0) for c in h]
+            yield _mk(['ProportionalApproval'], calls, _tag_calls(TG, ['ProportionalApproval'], calls, ['exhaustive']))
+    rp = [D([(T(['c0']), 2)]),
+          D([(T(['c0', 'c1']), 1), (T(['c1']), 2)]),
+          D([(T(['c0', 'c1', 'c2']), 2), (T(['c1', S(['c0', 'c2'])]), 1)]),
+          D([(T(['c3', 'c2', 'c1', 'c0']), 1), (T([S(['c0', 'c1']), 'c2']), 3)]),
+          D([(T(['c0', 'c0', 'c0']), 1)])]
+    for name in ('RankedToPositionalVotes', 'RankedToPositionalVotes:base0'):
+        for k in (1, 2, 3):
+            for h in itertools.product(rp, repeat=k):
+                calls = [dict(call('convert', json.loads(json.dumps(v))), t=0) for v in h]
+                yield _mk([name], calls, _tag_calls(TG, [name], calls, ['exhaustive']))
+    rb = [T(['c0']), T(['c0', 'c1']), T([S(['c0', 'c1'])]), T(['c0', S(['c1', 'c2']), 'c3']), T(['c0', 'c1', 'c2', 'c3']),
+          T(['c0', 'c0'])]
+    for name in ('RankedVoteValidator', 'RankedVoteValidator:perrank'):
+        for k in (1, 2, 3):
+            for h in itertools.product(rb, repeat=k):
+                calls = [dict(call('validate', json.loads(json.dumps(v))), t=0) for v in h]
+                yield _mk([name], calls, _tag_calls(TG, [name], calls, ['exhaustive']))
+    sb = [S([]), S([T(['c0', 1])]), S([T(['c0', 3]), T(['c1', 4])]), S([T(['c0', 9]), T(['c1', 0]), T(['c2', 1])]),
+          S([T(['c0', 1]), T(['c0', 2])]), S([T(['c0', 2]), T(['c1', 2]), T(['c2', 2]), T(['c3', 2])])]
+    for name in ('ScoreVoteValidator', 'ScoreVoteValidator:persize', 'RangeVoteValidator', 'EnumScoreVoteValidator'):
+        for k in (1, 2, 3):
+            for h in itertools.product(sb, repeat=k):
+                calls = [dict(call('validate', json.loads(json.dumps(v))), t=0) for v in h]
+                yield _mk([name], calls, _tag_calls(TG, [name], calls, ['exhaustive']))
+
+
+def untabled_classes():
+    """public concrete classes with an evaluate / convert / validate / ... method that the table does not construct"""
+    TG = TARGETS()
+    top = {t['cls'] for t in TG.values()}
+    base = {'Converter', 'SimpleVoteTransferer', 'SeatlessSelector', 'Selector'}      # bases that only raise NotImplementedError
+    out = []
+    for mod in _mods():
+        for n, c in inspect.getmembers(mod, inspect.isclass):
+            if c.__module__ != mod.__name__ or inspect.isabstract(c) or n in base:
+                continue
+            if any(hasattr(c, m) for m in ('evaluate', 'convert', 'validate', 'calculate', 'subset', 'transfer')):
+                if c not in top:
+                    out.append(f'{mod.__name__}.{n}')
+    return out
 
 
 def nontrivial(case, obs):
@@ -1313,7 +1370,7 @@ def compare(case, iobs, mobs):
             t = TG[case['targets'][c['t']]]
             if t.get('seed') is None:
                 continue
-            if not mo or not mo[0] or mo[0][0] != t['seed']:
+            if not mo or not mo[0] or not mo[0][0] or mo[0][0][0] != t['seed']:
                 return where + f'model draw was not preceded by a reseed: {mo}'
             if io != iobs['fresh'][i]:
                 return where + (f'output of the seeded component on the shared generator {json.dumps(io)[:120]} is not the '
@@ -1399,7 +1456,8 @@ def shrink_candidates(case):
                 yield dict(case, calls=calls[:i] + [dict(c, a=[a0] + c['a'][1:])] + calls[i + 1:])
 
 
-REQUIRED = ['history_independent_pav', 'pav_output_is_spec', 'pav_cache_invariant', 'pav_cache_contents',
+REQUIRED = ['history_independent_pav', 'pav_output_is_spec', 'pav_cache_invariant', 'pav_cache_contents', 'pav_cache_length',
+            'pav_repeated_call', 'history_independent_pav_with_borda',
             'history_dependent_pav_old_witness',
             'history_independent_borda', 'borda_state_after', 'history_dependent_borda_setOnce_witness',
             'scorer_raw_protocol_witness',
@@ -1436,4 +1494,4 @@ LEVEL_TEXT = ('Every component of votelib found to carry state between calls (PA
               'implementation (partial: not proved), for every public evaluator / converter / validator class and the module singletons.')
 LEVEL_NOTE = ('Trusted: Lean kernel + propext/Classical.choice/Quot.sound; translate.py for borda_scores; the correspondence harness '
               '(bounded by its generator: histories of length <= 6, 2-5 candidates); determinism of random.seed; CPython dict order.')
-EXHAUSTIVE = {'thorough': False}
+EXHAUSTIVE = {'thorough': True}
